@@ -187,12 +187,12 @@ def classify_failure(world, calls, ex, why):
     a = ex.alpha
     cfg = world.cfg
     # a store_object that returned normally but whose pid now names a missing object
-    for op, o in zip(calls, ex.outcomes):
+    for ti, (op, o) in enumerate(zip(calls, ex.outcomes)):
         if op["op"] == "store" and op.get("pid") and o[0] == "ok":
             cid = a["pidrefs"].get(cfg.H(op["pid"]))
             if cid is not None and cid not in a["objects"]:
                 if op["pid"] in a["cidrefs"].get(cid, []):
-                    return "refs-complete-object-missing/object-removed-" + removal_phase(world, calls, ex, op, cid)
+                    return "refs-complete-object-missing/object-removed-" + removal_phase(world, ti, ex, cid)
                 return "pid-ref-without-list-and-object"
     seq_errs = set()
     for vec in why["sequential_outcomes"]:
@@ -209,10 +209,9 @@ def classify_failure(world, calls, ex, why):
     return "outcome-state-combination-unreachable"
 
 
-def removal_phase(world, calls, ex, store_op, cid):
+def removal_phase(world, ti, ex, cid):
     """When, relative to the storing thread's tagging (its mutating operations under refs/), the
     object left its permanent address: before-tagging | during-tagging | after-tagging | unknown."""
-    ti = calls.index(store_op)
     objrel = world.cfg.obj_rel(cid)
     removed = None
     tag_first = tag_last = None
